@@ -24,7 +24,7 @@ def fmt(m):
     c = m["case"]
     steps = " ; ".join("%s(%s%s%s)" % (s["op"], ",".join(s["keys"]), (" = " + ",".join(s["vals"])) if s["vals"] else "",
                                       (" desc " + ",".join(s["aux"])) if any(s["aux"]) else "") for s in c["steps"])
-    return "base=%s, history [%s]: %s; got %s" % (c["base"], steps, m["what"], (m.get("got") or "")[:500])
+    return "initial document=%s, history [%s]: %s; got %s" % (c["base"], steps, m["what"], (m.get("got") or "")[:500])
 
 
 def run(ctx):
@@ -32,7 +32,8 @@ def run(ctx):
     binp = vlib.build_bin("pageops")
     d = vlib.scratch_dir()
     try:
-        runs = [("Doc35_quick.cfg", None, None, "bfs"), ("Doc35_std.cfg", None, None, "bfs")]
+        runs = [("Doc35_quick.cfg", None, None, "bfs"), ("Doc35_std.cfg", None, None, "bfs"),
+                ("Doc35_xmpkw.cfg", None, None, "bfs")]
         if not ctx.quick:
             runs.append(("Doc35_sim.cfg", "num=%d" % (12000 // po.NPROC), 14, "sim"))
         tot, nontriv, mism, ncases = {}, set(), [], 0
@@ -64,12 +65,17 @@ def run(ctx):
             if cfg == "Doc35_std.cfg":   # standard Info entries used as properties: own key space
                 for m in mm:
                     m["key"] = "std:" + m["key"]
+            for m in mm:                  # document whose keywords live in the catalog XMP metadata only: own key space
+                if m["case"]["base"] == "xmpkw":
+                    m["key"] = "xmpkw:" + m["key"]
             mism += mm
         keys = po.report_by_key(ctx, mism, fmt)
         ev.cov(evaluations=tot.get("steps_checked", 0), distinct_nontrivial=len(nontriv), traces_validated_against_impl=ncases,
-               rule="a case is one history of Doc35.tla on a base document (without / with an Info dictionary); exhaustive part (Doc35_quick.cfg, plus "
-                    "Doc35_std.cfg: <= 2 property edits with Subject/Author as names): all histories of "
-                    "<= 2 edits over the 47 actions of all families, and all histories of 3 edits within one family; thorough adds -simulate "
+               rule="a case is one history of Doc35.tla on a base document (without / with an Info dictionary); initial documents are emitted byte by byte from Doc35!BaseDoc: bare, "
+                    "info (Info dictionary, nothing listed), rich (keywords in Info dictionary AND catalog XMP metadata, properties, layout, mode, viewer "
+                    "preferences and an attachment already present), xmpkw (keywords in the XMP metadata only); exhaustive part (Doc35_quick.cfg, "
+                    "Doc35_std.cfg: <= 2 property edits with Subject/Author as names, Doc35_xmpkw.cfg: <= 2 keyword/property edits): all histories of "
+                    "<= 2 edits over the 53 actions of all families (1 step on the info document), 3 edits within the keyword / property / attachment family on the rich document, and all histories of 3 edits within one family; thorough adds -simulate "
                     "histories of 1-10 random edits over the larger alphabets. Each distinct (prefix, step) is executed once and all six listings "
                     "are compared; evaluations = steps compared; non-trivial = distinct (history prefix, step) pairs that changed the listing or "
                     "extracted attachments, and matched",
@@ -85,7 +91,7 @@ def run(ctx):
                   "attachments: adding a name that is already attached is not generated (pdfcpu keeps both under a uniquified name); descriptions never equal "
                   "a file name (removal/extraction also match descriptions); extracted files are found under their attachment names",
                   "setting viewer preferences overlays the given entries on the existing ones; reset removes all",
-                  "generated base documents only (PDF 1.7, no XMP metadata)",
+                  "generated initial documents only (PDF 1.7); XMP metadata carries pdf:Keywords as an element plus a dc:subject bag",
                   "harness built with go1.26.8")
     finally:
         shutil.rmtree(d, ignore_errors=True)
